@@ -505,6 +505,53 @@ class Hist:
                 break
 
 
+def collision_trials(chk, binary, shim, hasher, rng, n):
+    """hashsize 2: a file is rewritten IN PLACE (same size, new time-stamp) with bytes whose 16-bit block hash equals the
+    recorded one (found with the tool's own hash function, harness/c/hash_drv.c).  With reduced hashes the tool may not treat
+    a matching past hash as "unchanged": the parity must be rewritten.  Judged by the independent parity oracle and check."""
+    done = 0
+    for t in range(n):
+        a = Array(binary, nd=2, np_=rng.choice([1, 2]), shim=shim, hashsize=2)
+        try:
+            bs = a.bs
+            nb = rng.randint(1, 2)
+            a.write('d1', 'x', rng.randbytes(nb * bs))
+            a.write('d2', 'y', rng.randbytes((nb + 1) * bs))
+            if a.run('sync').rc != 0:
+                continue
+            st = a.content()
+            f = [f for f in st['disks']['d1']['files'] if f['sub'] == b'x'][0]
+            want = [b[2][:2] for b in f['blocks']]
+            newblocks = []
+            for w in want:
+                found = None
+                for rd in range(12):
+                    cands = [rng.randbytes(bs) for _ in range(20000)]
+                    outs = run_lines(hasher, ['%s %s %s' % (st['hash'], st['seed'].hex(), c.hex()) for c in cands], shards=8)
+                    for c, o in zip(cands, outs):
+                        if bytes.fromhex(o.strip())[:2] == w:
+                            found = c
+                            break
+                    if found:
+                        break
+                newblocks.append(found)
+            if any(b is None for b in newblocks):
+                continue
+            a.write('d1', 'x', b''.join(newblocks))          # in place: same size, new mtime, colliding 16-bit hashes
+            r = a.run('sync', '--force-empty')               # (every file of d1 was rewritten: the empty-disk interlock would refuse)
+            st2 = a.content()
+            perr, k = a.check_parity(st2)
+            r2 = a.run('check')
+            done += 1
+            bad = perr[:1] + (['sync exits %d' % r.rc] if r.rc else []) + (['check after the sync exits %d' % r2.rc] if r2.rc else [])
+            for b in bad[:1]:
+                chk.violation('hash2_collision', 'hashsize 2: d1:x rewritten in place with blocks whose 16-bit hash equals the recorded one; after the sync: %s' % b,
+                              {'kind': 'hash2_collision', 'np': a.np, 'blocks': nb, 'problems': bad})
+        finally:
+            shutil.rmtree(a.root, ignore_errors=True)
+    return done
+
+
 def main(tier, replay=None):
     chk = Check('C06', tier, 'proof')
     snap = snapshot_repo()
@@ -588,6 +635,7 @@ def main(tier, replay=None):
                     'histories': nh, 'all_blk_stripes_recomputed': total_stripes, 'sync_steps_replayed_by_model': total_model,
                     'traces_validated_against_impl': total_model})
     chk.cov['samples'] = samples
+    chk.cov['reduced_hash_collision_trials'] = collision_trials(chk, binary, shim, hasher, rng, 2 if tier == 'quick' else 10)
     if ob['failed'] and not chk.violations:
         chk.violation('obligation', 'proof obligation of C06 no longer checks: %s' % ob['failed'][0],
                       {'theorem_file': 'coq/Props/Properties_C06.v', 'failed': ob['failed'], 'log_tail': ob['log'][-1500:]}, no_input=True)
